@@ -122,14 +122,14 @@ _ADD = {
     'C14': 'taint walk: the pattern handed to fnmatch / glob is built from constants (a key spliced in unescaped is interpreted); string-building forms read alike (f-string / format / % / +); on every path load_checkpoint returns an object deserialised by this very call; file-is-the-store rule for the pickle persister\'s load path',
     'C15': 'constructor options of a namespace are properties with setters (what absorb copies is found by reflection); create-only-if-absent is a membership / is-None fact, not the truth value of a container; decision tables for the include+exclude rejection; identity-compared sentinel copies to itself (literal, or class whose copy hooks return self)',
     'C16': 'broadcast filter restricts the subject only; per-instance cleanup list; string-template reading of the announcement subject; the pid is assigned in what the constructor / the entering hook reaches (call graph), not in init(), so the first announcement carries it',
-    'C17': 'class resolved by the loader of THIS load (shared with C19); persisted-field table (shared with C07); path-sensitive: on every path the instantiated class is the value of the loader call of this load; truth-value tests of the persister vs __len__/__bool__ of persister classes; loader-configured as a decision table over "a loader was given" with attribute values at exit spelled out along each path',
+    'C17': 'class resolved by the loader of THIS load (shared with C19); persisted-field table (shared with C07); path-sensitive: on every path the instantiated class is the value of the loader call of this load; truth-value tests of the persister vs __len__/__bool__ of persister classes; loader-configured as a decision table over "a loader was given" with attribute values at exit spelled out along each path; what save leaves out of a checkpoint is what load fills in again (absent-means-the-same, shared with C07/C08); persist-without-persister rejection decided by path enumeration under the valuation',
     'C18': 'scope recognised as "with _process_scope()" or as push ... try/finally pop, helpers inlined',
     'C19': 'fact-based exception-saved rule; nested saves looked up in the helper-inlined views',
-    'C20': 'alias rule (futures.Future is asyncio.Future itself); fact-based "cancelled() found false before result()"; adapter callback found as closure or as partial(private function, locals); a converted subscriber goes through create_task and plum_to_kiwi_future, the adapters whose paths are examined (shared with C16); the adapter callback is registered on every path through the adapter (no shortcut delivers the outcome some other way); callback found by role when split',
+    'C20': 'alias rule (futures.Future is asyncio.Future itself); fact-based "cancelled() found false before result()"; adapter callback found as closure or as partial(private function, locals); a converted subscriber goes through create_task and plum_to_kiwi_future, the adapters whose paths are examined (shared with C16); the adapter callback is registered on every path through the adapter (no shortcut delivers the outcome some other way); callback found by role when split; create_task hands its coroutine to the loop through a thread-safe call (run_coroutine_threadsafe / call_soon_threadsafe): it is called from the communicator thread',
 }
 _COMMON = ('; all rules read the helper-inlined, alias-read-through, IfExp-lowered analysis VIEW of each function, on a program whose consistently renamed private names / local '
            'functions were renamed back against a committed fingerprint baseline and whose match / walrus / next() / search-loop / pair-update idioms were lowered to '
-           'plain statements (plumpy_sa/alpha.py); path rules prune branches the facts rule out; if a private attribute the rules are written against is no longer '
+           'plain statements, ExitStack callbacks to the try/finally nest they unwind to, new optional parameters / class-level seams to their defaults (plumpy_sa/alpha.py); helpers are inlined to depth 4, (flag, value) records returned by helpers are split and their early returns restored, a private anchor helper folded into its only caller is read there; the must-fact dataflow keeps facts guarded by a local flag across joins; path rules prune branches the facts rule out; if a private attribute the rules are written against is no longer '
            'stored in its class the check answers ANALYSIS-ERROR (exit 2) instead of judging')
 for _p, (_t, _x, _n) in list(CHECKS.items()):
     CHECKS[_p] = (_t + ('; ' + _ADD[_p] if _p in _ADD else '') + _COMMON, _x, _n)
